@@ -575,7 +575,9 @@ run_retry(void *arg)
 	g_fair = 0;
 	g_live_since = -1;
 	g_seq[0] = 0;
-	int var       = vs_choose(VK_ENV, 6);
+	int var       = vs_choose(VK_ENV, 12);
+	int pre       = var >= 6; // an earlier, cancelled request + an idle period
+	var %= 6;
 	int tmo       = TMO[var % 3];
 	int init_conn = var < 3;
 	NR            = sc->nreq;
@@ -620,6 +622,27 @@ run_retry(void *arg)
 	nng_aio_free(w->saio);
 	nng_aio_free(w->raio);
 	w->saio = w->raio = NULL;
+	if (pre) {
+		// a request that leaves the retry machinery through a cancel, then
+		// the socket sits idle for a few ticks: the resend timer must come
+		// back to life for the requests that follow
+		memset(w, 0, sizeof(*w));
+		w->tag     = "pre_";
+		w->taglen  = 4;
+		w->body    = w->tag;
+		w->bodylen = 4;
+		w->finite  = sc->retry[0] > 0;
+		submit(w, 0, sc->nreq, -1);
+		pump();
+		nng_aio_cancel(w->raio);
+		vs_settle();
+		vs_sleep(3 * TICK);
+		pump();
+		nng_aio_free(w->saio);
+		nng_aio_free(w->raio);
+		w->saio = w->raio = NULL;
+		strcat(g_seq, " (after a cancelled request)");
+	}
 	if (!init_conn) {
 		pump();
 		close_conn(0);
